@@ -146,6 +146,7 @@ static int b_cb(jwt_t *jwt, jwt_config_t *cfg)
 	return 0;
 }
 #define NBCFG 5
+static int nocb;	/* builders without a callback (events carry cfg + 10) */
 static const int BALG[NBCFG] = { JWT_ALG_NONE, JWT_ALG_HS256, JWT_ALG_ES256, JWT_ALG_EDDSA, JWT_ALG_PS256 };
 static jwt_builder_t *mk_builder(int cfg, bctx_t *ctx)
 {
@@ -156,7 +157,7 @@ static jwt_builder_t *mk_builder(int cfg, bctx_t *ctx)
 	if (key && jwt_builder_setkey(b, (jwt_alg_t)BALG[cfg], key)) vh_harness_fail("builder setkey: %s", jwt_builder_error_msg(b));
 	jwt_set_SET_STR(&v, "iss", "me"); jwt_builder_claim_set(b, &v);
 	jwt_builder_time_offset(b, JWT_CLAIM_EXP, 100);
-	jwt_builder_setcb(b, b_cb, ctx);
+	if (!nocb) jwt_builder_setcb(b, b_cb, ctx);
 	return b;
 }
 static void gen_step(long hist, int step, int cfg, jwt_builder_t *reused, bctx_t *rctx, int action, int clear)
@@ -169,6 +170,14 @@ static void gen_step(long hist, int step, int cfg, jwt_builder_t *reused, bctx_t
 	vh_now = NOW + step;
 	rctx->action = action; rctx->step = step;
 	if (clear) jwt_builder_error_clear(reused);
+	/* reconfiguration between generates, applied to the reused builder and to its fresh twin alike:
+	 * 6 = switch to alg none / no key for this token, 7 = put a typ header of the application's own (without replace) */
+	if (action == 6) { jwt_builder_setkey(reused, JWT_ALG_NONE, NULL); jwt_builder_setkey(fresh, JWT_ALG_NONE, NULL); vk = NULL; }
+	if (action == 7) {
+		jwt_value_t hv;
+		jwt_set_SET_STR(&hv, "typ", "at+jwt"); jwt_builder_header_set(reused, &hv);
+		jwt_set_SET_STR(&hv, "typ", "at+jwt"); jwt_builder_header_set(fresh, &hv);
+	}
 	tr = jwt_builder_generate(reused);
 	er = jwt_builder_error(reused); snprintf(mr, sizeof(mr), "%.64s", jwt_builder_error_msg(reused));
 	tf = jwt_builder_generate(fresh);
@@ -177,13 +186,20 @@ static void gen_step(long hist, int step, int cfg, jwt_builder_t *reused, bctx_t
 		const char *dr = strrchr(tr, '.'), *df = strrchr(tf, '.');
 		same = !strcmp(tr, tf);
 		same_hp = (dr - tr) == (df - tf) && !strncmp(tr, tf, (size_t)(dr - tr));
-		if (action == 5) vk = &K2;
+		if (action == 5 && !nocb) vk = &K2;
 		if (vk) { refr = vh_ref_token_valid(vk, tr, NULL); reff = vh_ref_token_valid(vk, tf, NULL); }
 	}
-	printf("[\"G\",%ld,%d,%d,%d,%d,%d,%d,", hist, step, cfg, action, clear, tr == NULL, er); put_msg(mr);
+	printf("[\"G\",%ld,%d,%d,%d,%d,%d,%d,", hist, step, cfg + 10 * nocb, action, clear, tr == NULL, er); put_msg(mr);
 	printf(",%d,%d,", tf == NULL, ef); put_msg(mf);
-	printf(",%d,%d,%d,%d,%d]\n", same_hp, same, refr, reff, (cfg != 2 && cfg != 4) || action == 5);
+	printf(",%d,%d,%d,%d,%d]\n", same_hp, same, refr, reff, (cfg != 2 && cfg != 4) || (action == 5 && !nocb) || action == 6);
 	free(tr); free(tf);
+	/* undo the reconfiguration on the reused builder (the fresh twin is discarded) */
+	if (action == 6) {
+		const jwk_item_t *key = cfg == 1 ? I1 : cfg == 2 ? IECpriv : cfg == 3 ? IED : cfg == 4 ? IRSA : NULL;
+		jwt_builder_setkey(reused, (jwt_alg_t)BALG[cfg], key);
+		jwt_builder_error_clear(reused);
+	}
+	if (action == 7) jwt_builder_header_del(reused, "typ");
 	jwt_builder_free(fresh);
 }
 
@@ -238,13 +254,15 @@ int main(int argc, char **argv)
 			jwt_checker_free(c);
 		}
 		for (int prov = 0; prov < 2; prov++)
+		for (int nc = 0; nc < 2; nc++)
 		for (int cfg = 0; cfg < NBCFG; cfg++)
-		for (int a1 = 0; a1 < 6; a1++)
-		for (int a2 = 0; a2 < 6; a2++)
+		for (int a1 = 0; a1 < 8; a1++)
+		for (int a2 = 0; a2 < 8; a2++)
 		for (int cl = 0; cl < 2; cl++, hist++) {
 			bctx_t ctx = { 0, 0 };
 			jwt_builder_t *b;
 			if (!vh_mine(&a, hist)) continue;
+			nocb = nc;
 			vh_case_begin(hist, "\"mode\":\"bpairs\",\"cfg\":%d,\"a1\":%d,\"a2\":%d,\"clear\":%d", cfg, a1, a2, cl);
 			vh_set_prov(prov);
 			b = mk_builder(cfg, &ctx);
@@ -271,9 +289,11 @@ int main(int argc, char **argv)
 			} else {
 				int cfg = (int)vh_below(&rng, NBCFG);
 				bctx_t ctx = { 0, 0 };
-				jwt_builder_t *b = mk_builder(cfg, &ctx);
+				jwt_builder_t *b;
+				nocb = (int)vh_below(&rng, 2);
+				b = mk_builder(cfg, &ctx);
 				for (int s = 0; s < len; s++)
-					gen_step(h, s, cfg, b, &ctx, (int)vh_below(&rng, 6), (int)vh_below(&rng, 2));
+					gen_step(h, s, cfg, b, &ctx, (int)vh_below(&rng, 8), (int)vh_below(&rng, 2));
 				jwt_builder_free(b);
 			}
 		}
